@@ -52,6 +52,10 @@ func WithGlobalTx(ctx context.Context, gc *GtxConfig, business CallbackWithCtx) 
 	// open global transaction for the first time
 	if !IsSeataContext(ctx) {
 		ctx = InitSeataContext(ctx)
+	} else {
+		// a nested scope works on its own copy of the transaction context: whatever it binds,
+		// unbinds or overwrites (xid, role, name) must not leak into the enclosing scope.
+		ctx = copySeataContext(ctx)
 	}
 
 	if IsGlobalTx(ctx) {
